@@ -162,6 +162,12 @@ def run(ctx):
         if len(T) > 1:
             add('fromdicts∘dicts', 'skip 0 %s' % tt, lambda T=T, hdr=hdr: etl.fromdicts(list(etl.dicts(T)), header=hdr), base, nt)
             add('fromdicts∘dicts(no header)', 'skip 0 %s' % tt, lambda T=T: etl.fromdicts(list(etl.dicts(T))), base, nt)
+            if len(T) > 1:
+                # every dict has every key: any sample size finds the header (sample=1 included), from a list, an iterator, a generator
+                for smp in (1, 2):
+                    add('fromdicts∘dicts(sample=%d)' % smp, 'skip 0 %s' % tt, lambda T=T, smp=smp: etl.fromdicts(list(etl.dicts(T)), sample=smp), base, nt)
+                    add('fromdicts∘dicts(generator, sample=%d)' % smp, 'skip 0 %s' % tt, lambda T=T, smp=smp: etl.fromdicts((d for d in list(etl.dicts(T))), sample=smp), base, nt)
+                add('fromdicts∘dicts(iterator)', 'skip 0 %s' % tt, lambda T=T, hdr=hdr: etl.fromdicts(iter(list(etl.dicts(T))), header=hdr), base, nt)
             add('fromdicts∘dicts(generator)', 'skip 0 %s' % tt, lambda T=T, hdr=hdr: etl.fromdicts((d for d in list(etl.dicts(T))), header=hdr), base, nt)
             add('fromdicts∘dicts(generator, pass after two overlapping passes)', 'skip 0 %s' % tt,
                 lambda T=T, hdr=hdr: _after_overlap(etl.fromdicts((d for d in list(etl.dicts(T))), header=hdr)), base, nt)
